@@ -114,7 +114,9 @@ def rotdpp(cl, rng, n, replay):
     import hvsrpy
     for j in range(n):
         raw, recs, N, dt = _records(rng, count=int(rng.integers(1, 3)))
-        azs = [np.arange(0, 180, 30.), np.array([20.]), np.array([10., 30., 75.]), np.arange(0, 180, 45.), np.array([0., 90.])][j % 5]
+        # the percentile is over the azimuths *requested*, duplicates and directions that coincide modulo 180 included
+        azs = [np.arange(0, 180, 30.), np.array([20.]), np.array([10., 30., 75.]), np.arange(0, 180, 45.), np.array([0., 90.]),
+               np.array([0., 60., 120., 180.]), np.arange(0, 360, 45.), np.array([20., 200., 75.]), np.array([30., 30., 100.])][j % 9]
         p = float(rng.choice([0., 50., 100., 30., 84.]))
         s, n_exp, width, op, b, fcs = _settings("HvsrTraditionalRotDppProcessingSettings", rng, N, dt, azimuths_in_degrees=azs,
                                                 ppth_percentile_for_rotdpp_computation=p)
@@ -178,6 +180,35 @@ def diffuse(cl, rng, n, replay):
         cl.case((op, b, width, N, dt, len(raw)))
         if not _check_rows(cl, "hvsrpy.processing.diffuse_field_hvsr_processing", [h.amplitude], [want], [margin], n_used, n_exp, N,
                            dict(operator=op, bandwidth=b, width=width, N=N, dt=dt, fcs=fcs), "diffuse"):
+            return
+
+
+def common_factor(cl, rng, n, replay):
+    """one factor on all three components leaves every curve unchanged - for every processing path and for factors that take the samples to the size of
+    ground motion in SI units (1e-9) as well as to large counts"""
+    import hvsrpy
+    fcs = np.array([1.0, 3.0, 7.0, 12.0])
+    sm = dict(operator="konno_and_ohmachi", bandwidth=40., center_frequencies_in_hz=fcs)
+    kinds = [("traditional", lambda: hvsrpy.HvsrTraditionalProcessingSettings(method_to_combine_horizontals="geometric_mean", smoothing=sm)),
+             ("single_azimuth", lambda: hvsrpy.HvsrTraditionalSingleAzimuthProcessingSettings(azimuth_in_degrees=35., smoothing=sm)),
+             ("rotdpp", lambda: hvsrpy.HvsrTraditionalRotDppProcessingSettings(azimuths_in_degrees=np.arange(0, 180, 30.), ppth_percentile_for_rotdpp_computation=70., smoothing=sm)),
+             ("azimuthal", lambda: hvsrpy.HvsrAzimuthalProcessingSettings(azimuths_in_degrees=np.array([0., 60., 120.]), smoothing=sm)),
+             ("diffuse_field", lambda: hvsrpy.HvsrDiffuseFieldProcessingSettings(smoothing=sm))]
+    factors = [1e-9, 1e-7, 1e-4, 1e3, 1e6]
+    for j in range(n):
+        kind, mk = kinds[j % len(kinds)]
+        k = factors[(j // len(kinds)) % len(factors)]
+        W = int(rng.integers(1, 3))
+        raw = [rp.gen_window(rng, N=int(rng.choice([128, 200])), dt=0.01, scale=1.0) for _ in range(W)]
+        N0 = len(raw[0][0])
+        raw = [tuple(c[:N0] if hasattr(c, "__len__") else c for c in r) for r in raw]
+        rows = lambda h: np.concatenate([x.amplitude for x in h.hvsrs], axis=1) if kind == "azimuthal" else np.atleast_2d(h.amplitude)
+        base = rows(hvsrpy.process([rp.mk_record(*r) for r in raw], mk()))
+        scaled = rows(hvsrpy.process([rp.mk_record(k * r[0], k * r[1], k * r[2], r[3]) for r in raw], mk()))
+        cl.case((kind, k, W))
+        if not (np.all(np.isfinite(base)) and close(scaled, base, 1e-8, 0)):
+            cl.fail(f"hvsrpy.processing.process[{kind}]", f"all three components multiplied by {k:g}: the curves change (max rel. deviation "
+                    f"{float(np.max(np.abs(scaled / base - 1))):.3g})", signature=f"common-factor:{kind}", factor=k)
             return
 
 
@@ -287,6 +318,8 @@ CLAUSES = [
     ("bounded:mixed time steps: curve i == spectral ratio of recording i", "bounded", "8 time-step arrangements of 3-4 recordings (non-involutive groupings), 4 methods",
      "hvsrpy.processing.process", (32, 320), mixed_steps),
     ("bounded:FFT length never below the window length across reuse of a settings object", "bounded", "pairs of window lengths 40-120 then 200-400", "hvsrpy.processing.prepare_fft_settings", (8, 100), fft_history),
+    ("bounded:a common factor on all three components leaves every curve unchanged (every processing path, factors 1e-9 .. 1e6)", "bounded",
+     "5 processing paths x 5 factors, 1-2 windows", "hvsrpy.processing.process", (25, 250), common_factor),
     ("cross-check:scaling and closed-form consequences", "cross-check", "5 methods x 5 factors, proportional components", "hvsrpy.processing.traditional_hvsr_processing", (10, 200), scaling),
 ]
 
